@@ -2,7 +2,7 @@
    Primitive machines and the derived operators (composed exactly as the code
    pipes them) of Ops/Aggregates.v; for every finite input and termination. *)
 From RxVerif Require Import Base.Prelude Ops.Machine Ops.MachineFacts Ops.ComposeFacts
-  Ops.Elementwise Ops.Aggregates Ops.AggregatesFacts.
+  Ops.Elementwise Ops.Aggregates Ops.AggregatesFacts Ops.AggregatesMore.
 
 (* pipelines: what a two-stage pipeline delivers is what stage 2 delivers on
    stage 1's output -- for ARBITRARY input streams *)
@@ -150,6 +150,123 @@ Theorem C06_to_list : forall A (xs : list A) t,
   = match t with TDone => [Next xs; Done] | TErr e => [Err e] | TNever => [] end.
 Proof. exact @to_list_spec. Qed.
 Print Assumptions C06_to_list.
+
+(* ---- second batch ----------------------------------------------------------- *)
+Theorem C06_contains : forall A (eqb : A -> A -> bool) (v : A) (xs : list A) t,
+  untag (exec (op_contains (pure2 eqb) v) (events xs t))
+  = if existsb (fun x => eqb x v) xs then [Next true; Done]
+    else match t with TDone => [Next false; Done] | TErr e => [Err e] | TNever => [] end.
+Proof. exact @contains_spec. Qed.
+Print Assumptions C06_contains.
+
+(* first / last / single with a predicate behave as the plain operator on the filtered input
+   (whose closed forms are C06_first / C06_last / C06_single) *)
+Theorem C06_first_pred : forall A (p : A -> bool) default (xs : list A) t,
+  untag (exec (op_first_pred (pure p) default) (events xs t))
+  = untag (exec (op_first default) (events (filter p xs) t)).
+Proof. exact @first_pred_spec. Qed.
+Print Assumptions C06_first_pred.
+Theorem C06_last_pred : forall A (p : A -> bool) default (xs : list A) t,
+  untag (exec (op_last_pred (pure p) default) (events xs t))
+  = untag (exec (op_last default) (events (filter p xs) t)).
+Proof. exact @last_pred_spec. Qed.
+Print Assumptions C06_last_pred.
+Theorem C06_single_pred : forall A (p : A -> bool) default (xs : list A) t,
+  untag (exec (op_single_pred (pure p) default) (events xs t))
+  = untag (exec (op_single default) (events (filter p xs) t)).
+Proof. exact @single_pred_spec. Qed.
+Print Assumptions C06_single_pred.
+
+(* to_set: first occurrences in arrival order, once, at completion; sound and complete up to the comparer *)
+Theorem C06_to_set : forall A eqb (xs : list A) t,
+  untag (exec (op_to_set eqb) (events xs t))
+  = match t with TDone => [Next (dedup eqb xs); Done] | TErr e => [Err e] | TNever => [] end.
+Proof. exact @to_set_spec. Qed.
+Print Assumptions C06_to_set.
+Theorem C06_to_set_sound : forall A eqb (xs : list A) y, In y (dedup eqb xs) -> In y xs.
+Proof. exact @dedup_sound. Qed.
+Print Assumptions C06_to_set_sound.
+Theorem C06_to_set_complete : forall A eqb (xs : list A), (forall x, eqb x x = true) ->
+  forall x, In x xs -> exists y, In y (dedup eqb xs) /\ eqb x y = true.
+Proof. exact @dedup_complete. Qed.
+Print Assumptions C06_to_set_complete.
+
+(* sequence_equal against an iterable: false at the first mismatch or surplus element, otherwise
+   decided at completion; true exactly for pointwise-equal sequences of equal length *)
+Theorem C06_sequence_equal_iter : forall A eqb (second xs : list A) t,
+  untag (exec (op_sequence_equal_iter (pure2 eqb) second) (events xs t))
+  = match se_run eqb second xs with
+    | None => [Next false; Done]
+    | Some q => match t with
+                | TDone => [Next (match q with [] => true | _ => false end); Done]
+                | TErr e => [Err e]
+                | TNever => []
+                end
+    end.
+Proof. exact @sequence_equal_iter_spec. Qed.
+Print Assumptions C06_sequence_equal_iter.
+Theorem C06_sequence_equal_true_iff : forall A eqb (qr xs : list A),
+  se_run eqb qr xs = Some [] <-> Forall2 (fun v x => eqb v x = true) qr xs.
+Proof. exact @se_run_true_iff. Qed.
+Print Assumptions C06_sequence_equal_true_iff.
+
+Theorem C06_sum_key : forall A (key : A -> Z) (xs : list A) t,
+  untag (exec (op_sum_key (pure key)) (events xs t))
+  = match t with TDone => [Next (fold_left Z.add (map key xs) 0); Done] | TErr e => [Err e] | TNever => [] end.
+Proof. exact @sum_key_spec. Qed.
+Print Assumptions C06_sum_key.
+
+(* average as the exact pair (sum of keys, number of elements); empty input fails *)
+Theorem C06_average : forall A (key : A -> Z) (xs : list A) t,
+  untag (exec (op_average_pair (pure key)) (events xs t))
+  = match t with
+    | TDone => match xs with
+               | [] => [Err EXN_NO_ELEMENTS]
+               | _ => [Next (fold_left (fun (s : Z * Z) x => (fst s + x, snd s + 1)) (map key xs) (0, 0)); Done]
+               end
+    | TErr e => [Err e]
+    | TNever => []
+    end.
+Proof. exact @average_pair_spec. Qed.
+Print Assumptions C06_average.
+Theorem C06_average_value : forall A (key : A -> Z) (xs : list A),
+  fold_left (fun (s : Z * Z) x => (fst s + x, snd s + 1)) (map key xs) (0, 0)
+  = (fold_left Z.add (map key xs) 0, Z.of_nat (length xs)).
+Proof. exact @average_pair_value. Qed.
+Print Assumptions C06_average_value.
+
+(* max_by / min_by over integer keys: ALL elements whose key is extremal, in arrival order *)
+Theorem C06_max_by : forall A (key : A -> Z) (xs : list A) t,
+  exists items,
+    untag (exec (op_max_by (pure key) (pure2 Z.sub)) (events xs t))
+    = match t with TDone => [Next items; Done] | TErr e => [Err e] | TNever => [] end
+    /\ match xs with
+       | [] => items = []
+       | _ => exists m, (forall y, In y xs -> key y <= m) /\ (exists y, In y xs /\ key y = m)
+                        /\ items = filter (fun y => key y =? m) xs
+       end.
+Proof. exact @max_by_spec. Qed.
+Print Assumptions C06_max_by.
+Theorem C06_min_by : forall A (key : A -> Z) (xs : list A) t,
+  exists items,
+    untag (exec (op_min_by (pure key) (pure2 Z.sub)) (events xs t))
+    = match t with TDone => [Next items; Done] | TErr e => [Err e] | TNever => [] end
+    /\ match xs with
+       | [] => items = []
+       | _ => exists m, (forall y, In y xs -> m <= key y) /\ (exists y, In y xs /\ key y = m)
+                        /\ items = filter (fun y => key y =? m) xs
+       end.
+Proof. exact @min_by_spec. Qed.
+Print Assumptions C06_min_by.
+
+Example C06_witness_max_by :
+  untag (exec (op_max_by (pure (fun x : Z => x mod 3)) (pure2 Z.sub)) (events [1; 5; 3; 2; 8] TDone))
+  = [Next [5; 2; 8]; Done].
+Proof. vm_compute. reflexivity. Qed.
+Example C06_witness_sequence_equal :
+  untag (exec (op_sequence_equal_iter (pure2 Z.eqb) [1; 2; 3]) (events [1; 2; 4; 9] TDone)) = [Next false; Done]
+  /\ untag (exec (op_sequence_equal_iter (pure2 Z.eqb) [1; 2]) (events [1; 2] TDone)) = [Next true; Done].
+Proof. vm_compute. split; reflexivity. Qed.
 
 Example C06_witness_reduce :
   untag (exec (op_reduce_seed (pure2 Z.add) 10) (events [1; 2; 3] TDone)) = [Next 16; Done].
